@@ -14,6 +14,7 @@ from hypothesis import strategies as st
 
 from vlib.harness import hyp_part
 
+THOROUGH_SCALE = 1.0
 PID = "C40"
 TITLE = "GraphSON values survive serialization and deserialization"
 LEVEL = "exploration"
